@@ -216,78 +216,74 @@ def run_check(prop, tier, seed, runs=None, nworkers=None, wall=None, extra_env=N
         rc = 0
         if viols:
             findings = [f for f in known_findings() if f.get("property") == prop and f.get("status") != "fixed"]
-            # one representative per class, smallest seed first; cap the work
-            by_cls = {}
-            for r in viols:
-                by_cls.setdefault(r["cls"], []).append(r)
-            todo = []
-            for cls in sorted(by_cls):
-                todo.extend(by_cls[cls][: (3 if tier == "quick" else 6)])
-            shr = pool.map(
-                (
-                    {"cmd": "shrink", "prop": prop, "case": r["case"], "cls": r["cls"], "budget": b[tier].get("shrink", 300)}
-                    for r in todo
-                ),
-                timeout=900,
-            )
-            shr.sort(key=lambda r: r["_job"]["case"].get("seed", 0))
-            fresh = Pool(1, seed, extra_env, hashseed_salt="replay")
-            try:
-                for s in shr:
-                    orig_case = s["_job"]["case"]
-                    if s.get("status") != "violation":
-                        # shrinking lost it; fall back to the original case
-                        s = fresh.map([{"cmd": "replay", "prop": prop, "case": orig_case}], timeout=600)[0]
-                    case = s["case"]
-                    rep = fresh.map([{"cmd": "replay", "prop": prop, "case": case}], timeout=600)[0]
-                    if rep.get("status") != "violation" or rep.get("cls") != s.get("cls"):
-                        rep2 = fresh.map([{"cmd": "replay", "prop": prop, "case": orig_case}], timeout=600)[0]
-                        if rep2.get("status") != "violation":
-                            print(
-                                f"HARNESS-ERROR property={prop} seed={orig_case.get('seed')} violation did not replay "
-                                f"in a fresh process (non-determinism): {s.get('cls')} {s.get('detail', '')[:500]}"
-                            )
-                            return 2
-                        case, rep = orig_case, rep2
-                    matched = []
-                    if findings:
-                        mm = fresh.map(
-                            [{"cmd": "match", "prop": prop, "case": case, "result": _slim(rep), "findings": findings}],
-                            timeout=600,
-                        )[0]
-                        if mm.get("status") == "harness-error":
-                            print(f"HARNESS-ERROR property={prop} finding match failed: {mm.get('detail', '')[-1500:]}")
-                            return 2
-                        matched = mm.get("matches", [])
-                    if matched:
-                        for fid in matched:
+            # 1. every violating run is matched against the known findings on its ORIGINAL case: a
+            #    discriminator includes an ablation re-run that must come out fully clean, so a
+            #    second, unknown problem in the same run cannot hide behind a known one.
+            unmatched = list(viols)
+            if findings:
+                mm = pool.map(
+                    ({"cmd": "match", "prop": prop, "case": r["case"], "result": _slim(r), "findings": findings} for r in viols),
+                    timeout=900,
+                )
+                by_seed = {}
+                for m_ in mm:
+                    if m_.get("status") == "harness-error":
+                        print(f"HARNESS-ERROR property={prop} finding match failed: {m_.get('detail', '')[-1500:]}")
+                        return 2
+                    by_seed[m_["_job"]["case"].get("seed")] = m_.get("matches", [])
+                unmatched = []
+                for r in viols:
+                    ms = by_seed.get(r["case"].get("seed"), [])
+                    if ms:
+                        for fid in ms:
                             known_hit[fid] = known_hit.get(fid, 0) + 1
-                        continue
-                    path = os.path.join(ROOT, "replays", f"{prop}-{case.get('seed', 0)}.json")
-                    os.makedirs(os.path.dirname(path), exist_ok=True)
-                    with open(path, "w") as f:
-                        json.dump(
-                            {
-                                "property": prop,
-                                "expected_class": rep.get("cls"),
-                                "expected_step": rep.get("step"),
-                                "detail": rep.get("detail"),
-                                "case": case,
-                            },
-                            f,
-                            indent=1,
-                            default=str,
-                        )
-                    reported.append((rep, path))
-            finally:
-                fresh.close()
+                    else:
+                        unmatched.append(r)
             for fid in sorted(known_hit):
                 fd = next(f for f in findings if f["id"] == fid)
-                print(f"KNOWN-FINDING: property={prop} {fid}: {fd['what']} (hit by {known_hit[fid]} minimised runs)")
+                print(f"KNOWN-FINDING: property={prop} {fid}: {fd['what']} (matched {known_hit[fid]} violating runs)")
+            # 2. unmatched violations: shrink (bounded number per class), verify the minimised replay in a
+            #    fresh interpreter, write replay files.  Runs beyond the shrink cap are reported unshrunk.
+            cap = 4 if tier == "quick" else 8
+            by_cls = {}
+            for r in unmatched:
+                by_cls.setdefault(r["cls"], []).append(r)
+            todo, rest = [], []
+            for cls in sorted(by_cls):
+                todo.extend(by_cls[cls][:cap])
+                rest.extend(by_cls[cls][cap:])
+            if todo:
+                shr = pool.map(
+                    (
+                        {"cmd": "shrink", "prop": prop, "case": r["case"], "cls": r["cls"], "budget": b[tier].get("shrink", 300)}
+                        for r in todo
+                    ),
+                    timeout=900,
+                )
+                shr.sort(key=lambda r: r["_job"]["case"].get("seed", 0))
+                fresh = Pool(1, seed, extra_env, hashseed_salt="replay")
+                try:
+                    for s in shr:
+                        orig_case = s["_job"]["case"]
+                        case = s["case"] if s.get("status") == "violation" else orig_case
+                        rep = fresh.map([{"cmd": "replay", "prop": prop, "case": case}], timeout=600)[0]
+                        if rep.get("status") != "violation" or (s.get("status") == "violation" and rep.get("cls") != s.get("cls")):
+                            rep2 = fresh.map([{"cmd": "replay", "prop": prop, "case": orig_case}], timeout=600)[0]
+                            if rep2.get("status") != "violation":
+                                print(
+                                    f"HARNESS-ERROR property={prop} seed={orig_case.get('seed')} violation did not replay "
+                                    f"in a fresh process (non-determinism): {s.get('cls')} {s.get('detail', '')[:500]}"
+                                )
+                                return 2
+                            case, rep = orig_case, rep2
+                        reported.append((rep, _write_replay(prop, case, rep)))
+                finally:
+                    fresh.close()
+            for r in rest:
+                reported.append((r, _write_replay(prop, r["case"], r)))
             seen_cls = set()
             for rep, path in reported:
-                if not quiet or True:
-                    print(f"VIOLATION property={prop} replay={path}")
+                print(f"VIOLATION property={prop} replay={path}")
                 if rep.get("cls") not in seen_cls:
                     seen_cls.add(rep.get("cls"))
                     print(f"  class={rep.get('cls')} step={rep.get('step')} detail={str(rep.get('detail'))[:600]}")
@@ -308,6 +304,25 @@ def run_check(prop, tier, seed, runs=None, nworkers=None, wall=None, extra_env=N
         return rc
     finally:
         pool.close()
+
+
+def _write_replay(prop, case, rep):
+    path = os.path.join(ROOT, "replays", f"{prop}-{case.get('seed', 0)}.json")
+    os.makedirs(os.path.dirname(path), exist_ok=True)
+    with open(path, "w") as f:
+        json.dump(
+            {
+                "property": prop,
+                "expected_class": rep.get("cls"),
+                "expected_step": rep.get("step"),
+                "detail": rep.get("detail"),
+                "case": case,
+            },
+            f,
+            indent=1,
+            default=str,
+        )
+    return path
 
 
 def _slim(r):
